@@ -242,7 +242,7 @@ def main(eng) -> int:
         else:
             unlisted.append(v)
     for fid, n in sorted(known_hit.items()):
-        print(f"KNOWN-FINDING: property={eng.PROPERTY} {fid}: {known_desc[fid]} (hit {n}x)")
+        print(f"KNOWN-FINDING: property={eng.PROPERTY} {fid}: {known_desc[fid][:220]} (hit {n}x)")
 
     exit_code = 0
     tree = core.tree_id() if unlisted else {}
